@@ -12,7 +12,9 @@
     For the event's own state update (order snapshots, cancel responses, fills, prices) it uses
     [update_state], which involves no requests.
     "Reported" is read from the value the call returned: the audit of [process], or the
-    GenerateAlgoOrdersOutput / ActionOutput of the direct calls. One asymmetry of the code is
+    GenerateAlgoOrdersOutput / ActionOutput of the direct calls, or what a strategy hook's call of
+    cancel_orders / close_positions returned (hook steps are judged like direct actions; the
+    trading-disabled hook additionally leaves trading disabled). One asymmetry of the code is
     accepted, not flagged (DESIGN.md C03): when generation hits a fatal send error the audit
     carries the errors but not the GenerateAlgoOrdersOutput; then the deliveries and marks are
     checked against the specification of the approved requests instead of the (absent) report. *)
@@ -94,13 +96,18 @@ Definition oracle_step (v : oview) (st : step) : bool * oview :=
        match ob_res o with RNone => true | _ => false end, v')
   | _ =>
       (* what the step is *)
-      let cmd := match st_op st with OpProcess (EvCommand c) => Some c | OpAction c => Some c | _ => None end in
+      let cmd := match st_op st with
+                 | OpProcess (EvCommand c) => Some c
+                 | OpAction c => Some c
+                 | OpHook h c => if hook_fires h (ov_trading v) then Some c else None
+                 | _ => None
+                 end in
       let is_process := match st_op st with OpProcess _ => true | _ => false end in
       let ev := match st_op st with OpProcess ev => ev | _ => EvShutdown end in
       (* the event's own update *)
       let '(su, upd_outs) :=
         if is_process then update_state (mkState (ov_trading v) [] (ov_insts v)) ev
-        else (mkState (ov_trading v) [] (ov_insts v), []) in
+        else (mkState (match st_op st with OpHook HTradingDisabled _ => false | _ => ov_trading v end) [] (ov_insts v), []) in
       let trading_after := trading su in
       (* reports present in the returned value *)
       let '(rep_cmd, rep_algo, errors, others, nrep, has_audit) :=
@@ -114,6 +121,8 @@ Definition oracle_step (v : oview) (st : step) : bool * oview :=
       let shape_ok :=
         match st_op st, ob_res o with
         | OpProcess _, RAudit _ | OpGenerate, RAlgo _ | OpAction _, RAction _ => true
+        | OpHook h _, RAction _ => hook_fires h (ov_trading v)
+        | OpHook h _, RNone => negb (hook_fires h (ov_trading v))
         | _, _ => false
         end in
       (* command phase *)
